@@ -1,0 +1,21 @@
+//go:build verif
+
+package candidates
+
+import "github.com/MinterTeam/minter-go-node/coreV2/types"
+
+// VerifPendingUpdates returns copies of the pending stake updates of a candidate as they are in
+// memory (read-only accessor for the verification harness; Export reloads them from the tree).
+func (c *Candidates) VerifPendingUpdates(pubkey types.Pubkey) []types.Stake {
+	candidate := c.GetCandidate(pubkey)
+	if candidate == nil {
+		return nil
+	}
+	candidate.lock.RLock()
+	defer candidate.lock.RUnlock()
+	out := make([]types.Stake, 0, len(candidate.updates))
+	for _, u := range candidate.updates {
+		out = append(out, types.Stake{Owner: u.Owner, Coin: uint64(u.Coin), Value: u.Value.String(), BipValue: u.BipValue.String()})
+	}
+	return out
+}
